@@ -194,9 +194,34 @@ def shifted_east(draw):
     return spec
 
 
+@st.composite
+def shifted_north(draw):
+    """Coordinates beyond +-90 on the y axis: projected coordinates (metres), or a global grid
+    whose polar rows are centred on the poles so that the cell edges lie past them."""
+    spec = draw(S.dataset_spec(with_vars=False, modes=("raw",), geom_kwargs={"max_n": 3}))
+    g = spec["geom"]
+    shift = draw(st.sampled_from([60.0, -70.0, 88.0, -90.0, 1000.0, -250000.0]))
+
+    def move(item):
+        if item is None:
+            return None
+        if len(item) == 2 and all(isinstance(v, (int, float)) for v in item):
+            return [item[0], item[1] + shift]
+        return [move(p) for p in item]
+    if g.get("nodes") is not None:
+        g["nodes"] = move(g["nodes"])
+    if g.get("lat") is not None:
+        g["lat"] = [v + shift for v in g["lat"]]
+        if g.get("lat_bounds") is not None:
+            g["lat_bounds"] = [[a + shift, b + shift] for a, b in g["lat_bounds"]]
+    spec["shifted_north_by"] = shift
+    return spec
+
+
 SUBS = [
     Sub("export", strategy, check_spec, quick=250, thorough=1000),
     Sub("export_awkward_coordinates", lambda tier: awkward_coordinates(), check_spec, quick=80, thorough=400),
     Sub("export_east_of_180", lambda tier: shifted_east(), check_spec, quick=40, thorough=200),
+    Sub("export_beyond_the_poles", lambda tier: shifted_north(), check_spec, quick=40, thorough=200),
 ]
 MATCHERS = {}
